@@ -193,12 +193,12 @@ def cases(draw, tier="quick", force_sel=None):
                             mode=draw(st.one_of(st.none(), treemodel.modes())),
                             uid=draw(st.one_of(st.none(), treemodel.ids())), gid=draw(st.one_of(st.none(), treemodel.ids())),
                             types=types)
-        case["nodes"] = draw(treemodel.trees(mode="dir", want_hlinks=(types is None), want_xattrs=False, allow_newline=True))
+        case["nodes"] = draw(treemodel.trees(mode="dir", want_hlinks=True, want_xattrs=False, allow_newline=True))
         # -name / -path / -nonrecursive: patterns are made from names of the tree ('*' for a slice, '?' for a byte and for every
         # byte that is special to fnmatch), so that some entries match and some do not
         filt = draw(st.sampled_from([None, None, "name", "name", "path", "nonrec"]))
         names = [n["path"] for n in case["nodes"]]
-        if filt in ("name", "path") and names and not any(n["type"] == "hlink" for n in case["nodes"]):
+        if filt in ("name", "path") and names:
             src = draw(st.sampled_from(names))
             pre = case["glob"]["prefix"].strip(b"/")
             if filt == "name":
